@@ -1057,6 +1057,41 @@ func runC15DefaultName(job *Job, res *Result, thorough bool) {
 			}
 		}
 	}
+	// a process with SEVERAL out-ports that keep their default names: every port gets its OWN name and
+	// extension, under every iteration order of the port map
+	for v := 0; v < 6; v++ {
+		vs.ForceAll = v
+		got := map[string]string{}
+		cmd := ""
+		sm := vs.Run(&vs.Prefix{}, func() {
+			if wf == nil {
+				wf = sp.NewWorkflowCustomLogFile("c15wf", 4, "/dev/null")
+			}
+			delete(wf.Procs(), "multi")
+			p := wf.NewProc("multi", "tool {i:x} --left {o:left|.txt} --right {o:right|.log} --rest {o:rest}")
+			ip, err := sp.NewFileIP("d.csv")
+			if err != nil {
+				panic("c15 harness: invalid in-path")
+			}
+			t := sp.NewTask(wf, p, p.Name(), p.CommandPattern, map[string]*sp.FileIP{"x": ip}, p.PathFuncs, p.PortInfo, map[string]string{}, map[string]string{}, p.Prepend, nil, 1)
+			for port, oip := range t.OutIPs {
+				got[port] = oip.Path()
+			}
+			cmd = t.Command
+		})
+		vs.ForceAll = -1
+		execs++
+		if sm.Outcome != "" {
+			viol("default-name-failed", "three default out-ports: "+sm.Outcome, "c15|default-name-failed|multi")
+			break
+		}
+		want := map[string]string{"left": "d.csv.multi.left.txt", "right": "d.csv.multi.right.log", "rest": "d.csv.multi.rest"}
+		for port, w := range want {
+			if got[port] != w {
+				viol("default-name-form", fmt.Sprintf("process with out-ports left|.txt, right|.log, rest (map order variant %d): default path of %s is %q, the documented form is %q (command %q)", v, port, got[port], w, cmd), "c15|default-name-form|multi|"+port)
+			}
+		}
+	}
 	// maps with three keys: every one of the 6 iteration orders of every map (1 process, 1 port)
 	if (job.Args["ports"] == "" || ownPorts[0] == ports[0]) && !twices[0] {
 		three := func(names []string, vals []string) map[string]string {
